@@ -18,13 +18,14 @@ RULE = ('(a) fault points, ENUMERATED per score: a complete score-partwise built
         'separately, an exception is injected at the k-th call of xml.etree.ElementTree.indent (the stdlib helper the '
         'serialiser calls once per element) for EVERY k; each fault x prior destination state in {empty file, '
         'previous valid document, arbitrary bytes}.  Oracle: write() raises and the destination bytes are exactly '
-        'what they were.  (b) success: on return the file holds the XML declaration + to_string() encoded UTF-8 and '
+        'what they were.  (b) success, for every prior state in {absent, empty, shorter valid document, arbitrary '
+        'bytes, a document longer than the new one}: on return the file holds the XML declaration + to_string() encoded UTF-8 and '
         'xml.etree re-reads it.  (c) configurations: fresh interpreters with default text encoding ASCII '
         '(LC_ALL=C, PYTHONCOERCECLOCALE=0, -X utf8=0), UTF-8 (C.UTF-8), and emulated Latin-1 / cp1252 (launcher wraps '
         'builtins.open / io.open to apply that encoding whenever the caller passes none) import the package, build, '
         'write, parse and re-serialise documents with non-ASCII text: files must be byte-identical and '
         're-serialisations identical across all configurations.  Non-trivial: (a) the failing node is not the root '
-        'and the prior content is non-empty; (c) the document contains non-ASCII text.')
+        'and the prior content is non-empty; (b) non-ASCII text or a prior longer than the document; (c) the document contains non-ASCII text.')
 ASSUMPTIONS = ['destination unchanged is asserted for pre-existing files only',
                'Latin-1 / cp1252 default encodings are emulated (no such OS locale is installed); the wrapper does '
                'what the interpreter does: supply the default when the caller passed no encoding']
@@ -101,7 +102,11 @@ def break_node(sc, path, how):
 
 
 PRIORS = {'empty': b'', 'valid': b'<?xml version="1.0" encoding="UTF-8"?>\n<score-partwise version="4.0"/>\n',
-          'bytes': bytes(range(256)) * 3}
+          'bytes': bytes(range(256)) * 3,
+          # longer than any generated document: whatever write() does not replace would stay behind the new text
+          'long': b'<?xml version="1.0" encoding="UTF-8"?>\n<score-partwise version="4.0"/>\n' + b'<!-- 0123456789 -->\n' * 20000,
+          'absent': None}
+SUCCESS_PRIORS = ('absent', 'empty', 'valid', 'bytes', 'long')
 
 
 def attempt_write(sc, prior, inject_at=None):
@@ -109,7 +114,9 @@ def attempt_write(sc, prior, inject_at=None):
     fd, p = tempfile.mkstemp(suffix='.xml', prefix='mxv_c17_')
     try:
         with os.fdopen(fd, 'wb') as f:
-            f.write(PRIORS[prior])
+            f.write(PRIORS[prior] or b'')
+        if PRIORS[prior] is None:
+            os.unlink(p)
         if inject_at is None:
             r = call(sc.write, p)
         else:
@@ -126,10 +133,13 @@ def attempt_write(sc, prior, inject_at=None):
                 r = call(sc.write, p)
             finally:
                 ET.indent = real
-        with open(p, 'rb') as f:
-            after = f.read()
+        after = None
+        if os.path.exists(p):
+            with open(p, 'rb') as f:
+                after = f.read()
     finally:
-        os.unlink(p)
+        if os.path.exists(p):
+            os.unlink(p)
     return r, PRIORS[prior], after
 
 
@@ -174,19 +184,20 @@ def check_fault(spec, fault, prior):
     return None, 'run'
 
 
-def check_success(spec):
-    inp = {'mode': 'success', 'spec': spec}
+def check_success(spec, prior='valid'):
+    inp = {'mode': 'success', 'spec': spec, 'prior': prior}
     sc = build_score(spec)
     rs = call(sc.to_string)
     if not rs.ok:
         return None
-    r, before, after = attempt_write(sc, 'valid')
+    r, before, after = attempt_write(sc, prior)
     if not r.ok:
         return F('write-raised-on-valid-tree', inp, '%s: %s' % (r.etype, r.msg[:160]), 'returns', r.site)
     want = ('<?xml version="1.0" encoding="UTF-8" standalone="no"?>\n' + rs.value).encode('utf-8')
     if after != want:
         return F('file-content-differs-from-to-string', inp,
-                 {'len': [len(after), len(want)], 'head': repr(after[:80])}, 'declaration + to_string() in UTF-8')
+                 {'len': [len(after or b''), len(want)], 'head': repr((after or b'')[:80]),
+                  'tail': repr((after or b'')[-40:])}, 'declaration + to_string() in UTF-8')
     try:
         ET.fromstring(after)
     except ET.ParseError as ex:
@@ -280,7 +291,7 @@ def replay_case(rec):
     if inp['mode'] == 'fault':
         return check_fault(inp['spec'], inp['fault'], inp['prior'])[0]
     if inp['mode'] == 'success':
-        return check_success(inp['spec'])
+        return check_success(inp['spec'], inp.get('prior', 'valid'))
     return check_configs(inp['specs'])
 
 
@@ -301,11 +312,14 @@ def run_shard(ctx, shard, acc):
         def body(data):
             spec = draw_spec(data, small=ctx.quick)
             sc = build_score(spec)
-            f = check_success(spec)
-            acc.case({'mode': 'success', 'spec': spec}, any(ord(c) > 127 for c in spec['title'] + spec['words']), 0)
-            acc.count('success-writes')
-            if f:
-                acc.fail(f)
+            for prior in SUCCESS_PRIORS:
+                f = check_success(spec, prior)
+                acc.case({'mode': 'success', 'spec': spec, 'prior': prior},
+                         any(ord(c) > 127 for c in spec['title'] + spec['words']) or prior in ('bytes', 'long'), 0)
+                acc.count('success-writes')
+                acc.count('success-prior-' + prior)
+                if f:
+                    acc.fail(f)
             paths = [list(p) for _, p in nodes_of(sc)]
             n_indent = count_indent_calls(sc)
             faults = [['node', p, how] for p in paths for how in ('child', 'attr')] + \
